@@ -159,6 +159,8 @@ def input_hash(sess, upto=None):
             break
         if e["ev"] == "def":
             h.update(json.dumps(["def", e["name"], e.get("k", 0), [[[q[:2] for q in r] for r in p] for p in e["mp"]]], separators=(",", ":")).encode())
+        elif e["ev"] == "filler":
+            h.update(json.dumps(["filler", e["n"], e["op"]]).encode())
         else:
             h.update(json.dumps(["call", e["op"], e["x"], e["y"], e["px"], e["py"], e["F"]], separators=(",", ":")).encode())
     return h.hexdigest()[:16]
@@ -185,6 +187,8 @@ def session_stats(sessions):
             if e["ev"] == "def":
                 edges[e["name"]] = n_edges_mp(e["mp"])
                 defs[e["name"]] = json.dumps([[[q[:2] for q in r] for r in p] for p in e["mp"]], separators=(",", ":"))
+            elif e["ev"] == "filler":
+                calls += e["n"]
             else:
                 calls += 1
                 key = hashlib.sha256(json.dumps([defs.get(e["x"], e["x"]), defs.get(e["y"], e["y"]), e["op"], e["px"], e["py"], e["F"], s["sid"] if e["x"] not in defs or e["y"] not in defs else 0]).encode()).hexdigest()[:16]
@@ -233,6 +237,8 @@ def compact_sample(sess, max_calls=2):
     for e in sess["events"]:
         if e["ev"] == "def":
             out["events"].append({"def": e["name"], "rel": e.get("rel"), "mp": [[[q[:2] for q in r] for r in p] for p in e["mp"]]})
+        elif e["ev"] == "filler":
+            continue
         elif nc < max_calls:
             nc += 1
             out["events"].append({"call": e["res"], "op": e["op"], "x": e["x"], "y": e["y"], "pairing": e["px"] + e["py"], "F": e["F"],
